@@ -24,6 +24,59 @@ DEFAULT_CONSTS = {
 }
 
 
+# Jobs over the extensions of Lang.tla (fourth session).  CORE: constructs inside C02's statement (records, closures
+# handed to functions and to other closures, two output channels).  X: constructs outside C02's list (arrays, numeric
+# match, a recursive function): the specification's value is compared where a check says so, the back ends / the
+# generated Rust are always compared with each other.
+_REC = {"Lits": "{1}", "Ops": '{"+"}', "Helpers": '{"pick", "mkr"}'}
+EXT_CORE = {
+    "quick": [
+        # a captured variable, a capturing closure, closures built around it and handed to named functions
+        ("hof8", {"Template": '"hof"', "Budget": 8, "Lits": "{2}", "Ops": '{"*"}', "Helpers": '{"apply", "mk"}',
+                  "Prods": '{"app", "lam"}'}),
+        # record literals / updates whose initialisers assign a shared variable (written order, not layout order)
+        ("recclo8", {"Template": '"clo"', "Budget": 8, "Lits": "{2}", "Ops": '{"+"}', "Helpers": '{"pick"}',
+                     "Prods": '{"app", "fld", "letr", "rec", "recupd2"}'}),
+        ("rec6", dict(_REC, Template='"dsp"', UseInput="TRUE", Budget=6,
+                      Prods='{"fld", "letr", "rec", "recupd", "recupd2", "asgf"}')),
+        ("dsp2c5", {"Template": '"dsp2"', "UseInput": "FALSE", "Budget": 5, "Lits": "{1}", "Ops": '{"+", "*"}'}),
+        # the callee of an application is itself an expression with stateful call sites (mk(counter(1))(x))
+        ("appstate6", {"Template": '"f"', "Budget": 6, "Lits": "{1}", "Ops": '{"+"}', "Helpers": '{"mk", "counter", "lag"}',
+                       "Prods": '{"app", "now"}'}),
+    ],
+    "thorough": [
+        ("hof9", {"Template": '"hof"', "Budget": 9, "Lits": "{2}", "Ops": '{"*"}', "Helpers": '{"apply", "mk"}',
+                  "Prods": '{"app", "lam", "letf"}'}),
+        ("recclo9", {"Template": '"clo"', "Budget": 9, "Lits": "{2}", "Ops": '{"+"}', "Helpers": '{"pick", "mkr"}',
+                     "Prods": '{"app", "fld", "letr", "rec", "recupd", "recupd2", "asgf"}'}),
+        ("rec7", dict(_REC, Template='"f"', UseInput="TRUE", Budget=7, Helpers='{"pick", "mkr", "counter"}',
+                      Prods='{"fld", "letr", "rec", "recupd", "recupd2", "asgf", "if", "ifr"}')),
+        ("dsp2c6", {"Template": '"dsp2"', "UseInput": "FALSE", "Budget": 6, "Lits": "{1}", "Ops": '{"+"}'}),
+        ("appstate7", {"Template": '"f"', "Budget": 7, "Lits": "{1}", "Ops": '{"+"}', "Helpers": '{"mk", "counter", "lag", "apply"}',
+                       "Prods": '{"app", "now", "lam"}'}),
+    ],
+}
+EXT_X = {
+    "quick": [
+        ("x_arr5", {"Template": '"f"', "UseInput": "TRUE", "Budget": 5, "Lits": "{1}", "Ops": '{"+"}',
+                    "Helpers": '{"counter", "sumto"}', "Prods": '{"now", "arr", "idx", "idxv", "len", "leta", "match"}'}),
+        ("x_matchst5", {"Template": '"f"', "Budget": 5, "Lits": "{1}", "Ops": '{"+"}', "Helpers": '{"counter", "lag"}',
+                        "Prods": '{"now", "match", "mem"}'}),
+    ],
+    "thorough": [
+        ("x_arr6", {"Template": '"f"', "UseInput": "TRUE", "Budget": 6, "Lits": "{1}", "Ops": '{"+"}',
+                    "Helpers": '{"counter", "sumto"}', "Prods": '{"now", "arr", "idx", "idxv", "len", "leta", "match"}'}),
+        ("x_matchst6", {"Template": '"f"', "Budget": 6, "Lits": "{1}", "Ops": '{"+"}', "Helpers": '{"counter", "lag"}',
+                        "Prods": '{"now", "match", "mem"}'}),
+    ],
+}
+
+
+def ext_jobs(tier, x=True):
+    """quick: the quick lists; thorough: the thorough lists (deeper versions of the same jobs)"""
+    return EXT_CORE[tier] + (EXT_X[tier] if x else [])
+
+
 def write_cfg(name, consts, invariants=("Emit",)):
     c = dict(DEFAULT_CONSTS)
     c.update(consts)
